@@ -4,6 +4,7 @@ package main
 
 import (
 	"fmt"
+	"os"
 	"go/types"
 	"strings"
 
@@ -190,6 +191,9 @@ func (x *Exec) havocLoop(st *State, fr *Frame, header *ssa.BasicBlock, li *loopI
 			}
 		}
 	}
+	if os.Getenv("GOVC_DEBUG") != "" {
+		fmt.Fprintf(os.Stderr, "havocLoop %s header=%d blocks=%d ghosts=%v all=%v cells=%v\n", fr.fn.Name(), header.Index, len(li.body[header]), ghosts, all, cells)
+	}
 	for c := range cells {
 		if old, ok := st.cells[c]; ok {
 			if tv, ok := old.(TV); ok {
@@ -297,8 +301,17 @@ func (x *Exec) callWrites(cc *ssa.CallCommon, seen map[*ssa.Function]bool) (map[
 		return out, true
 	}
 	name := fnName(fn)
+	if os.Getenv("GOVC_DEBUG") != "" {
+		fmt.Fprintf(os.Stderr, "callWrites %s inRepo=%v blocks=%v\n", name, inRepo(fn), fn.Blocks != nil)
+	}
 	if strings.HasPrefix(name, "(cosmossdk.io/collections.") {
 		m := fn.Name()
+		if o := fn.Origin(); o != nil {
+			m = o.Name()
+		}
+		if os.Getenv("GOVC_DEBUG") != "" {
+			fmt.Fprintf(os.Stderr, "  coll method %q recv=%q\n", m, collFieldName(cc.Args[0]))
+		}
 		if m == "Set" || m == "Remove" || m == "Next" || m == "Clear" {
 			if n := collFieldName(cc.Args[0]); n != "" {
 				out[n] = true
@@ -389,7 +402,7 @@ func (x *Exec) nextIter(st *State, fr *Frame, ins *ssa.Next) {
 	k = TV{T: x.enc.Zero(types.Typ[types.Int]), Ty: kt}
 	if _, isInvalid := kt.(*types.Basic); !isInvalid || kt.(*types.Basic).Kind() != types.Invalid {
 		kk := x.freshTV("iter_k", kt, st)
-		st.Assume(implies(ok.T, app("(_ is Some)", app("select", arr, kk.T))))
+		st.Assume(implies(ok.T, isSomeT(app("select", arr, kk.T), "(Opt "+x.enc.Sort(vtOrInt(vt))+")")))
 		k = kk
 		if b, isB := vt.(*types.Basic); !isB || b.Kind() != types.Invalid {
 			v = TV{T: app("val", app("select", arr, kk.T)), Ty: vt}
@@ -464,8 +477,10 @@ func (x *Exec) walk(c *CallCtx) []Outcome {
 	}
 	// no invariant: havoc what the callback may write
 	cells := map[int]bool{}
-	for _, f := range free {
-		x.markReachable(st, f, cells)
+	for idx := range x.closureWrites(fn) {
+		if idx < len(free) {
+			x.markReachable(st, free[idx], cells)
+		}
 	}
 	ws, unk := x.fnWrites(fn, map[*ssa.Function]bool{})
 	for cnum := range cells {
@@ -477,4 +492,66 @@ func (x *Exec) walk(c *CallCtx) []Outcome {
 	x.warn("Map.Walk at %s without invariant: callback effects havocked", x.pos(c.instr.Pos()))
 	err := x.freshTV("walkerr", tError, st)
 	return c.ret(err)
+}
+
+func vtOrInt(t types.Type) types.Type {
+	if b, ok := t.(*types.Basic); ok && b.Kind() == types.Invalid {
+		return types.Typ[types.Int]
+	}
+	return t
+}
+
+// closureWrites: indices of the free variables a closure body may write through
+// (stores rooted at the free variable, or the free variable escaping into a call).
+func (x *Exec) closureWrites(fn *ssa.Function) map[int]bool {
+	out := map[int]bool{}
+	idx := map[ssa.Value]int{}
+	for i, fv := range fn.FreeVars {
+		idx[fv] = i
+	}
+	root := func(v ssa.Value) ssa.Value {
+		for {
+			switch a := v.(type) {
+			case *ssa.FieldAddr:
+				v = a.X
+				continue
+			case *ssa.IndexAddr:
+				v = a.X
+				continue
+			}
+			return v
+		}
+	}
+	for _, b := range fn.Blocks {
+		for _, in := range b.Instrs {
+			switch ins := in.(type) {
+			case *ssa.Store:
+				if i, ok := idx[root(ins.Addr)]; ok {
+					out[i] = true
+				}
+			case *ssa.MapUpdate:
+				if i, ok := idx[ins.Map]; ok {
+					out[i] = true
+				}
+			case ssa.CallInstruction:
+				for _, a := range ins.Common().Args {
+					if i, ok := idx[root(a)]; ok {
+						if _, isPtr := a.Type().Underlying().(*types.Pointer); isPtr {
+							out[i] = true
+						}
+					}
+				}
+			case *ssa.MakeClosure:
+				inner := x.closureWrites(ins.Fn.(*ssa.Function))
+				for j, bnd := range ins.Bindings {
+					if inner[j] {
+						if i, ok := idx[root(bnd)]; ok {
+							out[i] = true
+						}
+					}
+				}
+			}
+		}
+	}
+	return out
 }
